@@ -2,23 +2,73 @@
 import hashlib
 from props.common import *   # noqa
 from props import spell
+from engine import conc, symfs
 
-MINE = {"returned-value", "instance-state", "history:later-call-key-set-depends-on-history", "result-class",
-        "history:later-call-failed"}
+MINE = {"returned-value", "instance-state", "history:results-depend-on-earlier-calls-on-the-instance", "result-class"}
+
+
+def probe(w, s, algos):
+    """a fixed follow-up history whose reported digests must not depend on what the instance did before"""
+    pid = w.pids[0]
+    out = []
+
+    def rec(fn):
+        try:
+            out.append(("ok", conc.summ(fn())))
+        except Exception as e:   # noqa
+            out.append(("exc", type(e).__name__))
+    rec(lambda: s.delete_object(pid))
+    rec(lambda: s.store_object(pid, w.src(0)))
+    for a in algos:
+        rec(lambda: s.get_hex_digest(pid, a))
+    rec(lambda: sorted(s.store_object(None, w.src(1)).hex_digests.items()))
+    rec(lambda: s.delete_object(pid))
+    rec(lambda: sorted(s.store_object(pid, w.src(1), "sha224").hex_digests.items()))
+    rec(lambda: s.get_hex_digest(pid, algos[0]))
+    return out
+
+
+def fresh_instance_probe(w, s, algos):
+    """run the probe on the instance that just served the call and on a fresh instance over a copy of the same store"""
+    import shutil
+    if w.mode == "model":
+        F = w.F
+        F2 = symfs.FS(F.b.clone_concrete(), blksize=w.blksize)
+        F2.env = dict(F.env)
+        used = probe(w, s, algos)
+        w.shim.fs = F2
+        try:
+            fresh = probe(w, w.instance(), algos)
+        finally:
+            w.shim.fs = F
+    else:
+        root2 = w.scratch + "/copy"
+        shutil.copytree(w.scratch + "/s", root2 + "/s")
+        used = probe(w, s, algos)
+        s2 = w.module().FileHashStore(w.props(root2 + "/s"))
+        fresh = probe(w, s2, algos)
+        shutil.rmtree(root2, ignore_errors=True)
+    if used != fresh:
+        d = [(i, a, b) for i, (a, b) in enumerate(zip(used, fresh)) if a != b][:2]
+        return [("results-depend-on-earlier-calls-on-the-instance", d)]
+    return []
+
+
+PROBE_ALGOS = ["sha256", "MD5", "SHA-384", "sha3_256", "blake2b"]
 
 
 class StoreAlgo(step.StoreObj):
-    """store_object with additional / checksum algorithms, followed (after the post-state was abstracted) by a plain
-    store on the same instance whose key set must be the five defaults again."""
+    """store_object with additional / checksum algorithms, followed (after the post-state was abstracted) by a fixed
+    probe history on the same instance and on a fresh one: reported key sets and digests must be identical."""
 
     def finally_(self, w, s, res):
-        try:
-            om = s.store_object(None, w.src(0))
-        except Exception as e:   # noqa
-            return [("later-call-failed", type(e).__name__)]
-        if set(om.hex_digests) != set(FIVE):
-            return [("later-call-key-set-depends-on-history", sorted(om.hex_digests))]
-        return []
+        algos = [a for a in (self.add, self.calgo) if a and (self.add_canon or self.calgo_canon)] + PROBE_ALGOS
+        return fresh_instance_probe(w, s, algos)
+
+
+class HexDigestP(step.HexDigest):
+    def finally_(self, w, s, res):
+        return fresh_instance_probe(w, s, [self.algo] + PROBE_ALGOS)
 
 
 def menu_for(tier):
@@ -28,13 +78,13 @@ def menu_for(tier):
         c = w.contents[k]
         for canon in ALGOS12:
             sps = spell.spellings(canon, tier)
-            for sp in sps:
-                m.append(StoreAlgo(0, k, add=sp, add_canon=canon, tagname=", additional=%s" % sp,
+            for nsp, sp in enumerate(sps):
+                m.append((StoreAlgo if nsp == 0 or tier == "thorough" else step.StoreObj)(0, k, add=sp, add_canon=canon, tagname=", additional=%s" % sp,
                                    roles="store_object(pid, content, additional_algorithm)"))
-                m.append(StoreAlgo(0, k, checksum=hashlib.new(canon, c).hexdigest(), calgo=sp, calgo_canon=canon,
+                m.append((StoreAlgo if nsp == 0 or tier == "thorough" else step.StoreObj)(0, k, checksum=hashlib.new(canon, c).hexdigest(), calgo=sp, calgo_canon=canon,
                                    tagname=", checksum_algorithm=%s" % sp,
                                    roles="store_object(pid, content, checksum+algorithm)"))
-                m.append(step.HexDigest(0, sp, canon))
+                m.append((HexDigestP if nsp == 0 or tier == "thorough" else step.HexDigest)(0, sp, canon))
         # combinations of additional and checksum algorithm (canonical spellings), same and different
         for a in ALGOS12:
             for b in ALGOS12:
@@ -78,7 +128,7 @@ def main(tier, replay_payload=None):
                        "defaults plus the requested algorithms, every value equals hashlib's digest of the content, "
                        "get_hex_digest equals the true digest. History independence is inductive: the per-instance "
                        "algorithm list is part of Inv and must be the five defaults again after every call (including "
-                       "rejected ones); a follow-up plain store on the same instance must report exactly five keys.")
+                       "rejected ones); and a fixed follow-up history (delete, re-store other content, get_hex_digest under several spellings, plain store) must give identical results on the instance that served the call and on a fresh instance over a copy of the same store.")
     run.outside = ["spellings outside the template", "digests of large contents"]
     run.need("store with additional algorithm succeeded", run.reach["ok"] > 0)
     return run.finish()
